@@ -76,7 +76,11 @@ func (r *Runner) Calibrate(sc *lakeh.JScenario) error {
 				n++
 			}
 			if n == 0 {
-				return fmt.Errorf("calibration of %s %s: no HEAD read observed: %v", op.K, op.Arg, r.LastTrace)
+				// The real operation wrote without reading HEAD first; Journal.tla has no such
+				// behaviour, so every replay of this scenario will be reported as drift and
+				// only the model-free oracles judge it.
+				r.C.Drift("calibration of %s %s: no HEAD read before the first write: %v", op.K, op.Arg, r.LastTrace)
+				n = 1
 			}
 			seen[kk] = n - 1
 			op.Pre = n - 1
@@ -296,13 +300,32 @@ func (r *Runner) Execute(sc *lakeh.JScenario, sched []lakeh.GateStep, want *lake
 			}
 			lbl, rn, _ = gate.Pending(st.C)
 		}
+		if drift != "" {
+			// The real code has left the spec's behaviour (reported as drift).  Keep following
+			// the schedule's client order one storage operation at a time, so that the
+			// model-free oracles still judge a controlled interleaving rather than a free run.
+			if gate.State(st.C) == "blocked" {
+				if err := gate.Grant(st.C); err != nil {
+					gate.Drain()
+					wg.Wait()
+					return results, nil, "", err
+				}
+			}
+			continue
+		}
 		if gate.State(st.C) != "blocked" || lbl != st.Lbl {
 			drift = fmt.Sprintf("step %d: spec expects client %d to do %s, real client is %s with pending %q", si+1, st.C, st.Lbl, gate.State(st.C), lbl)
-			break
+			if gate.State(st.C) == "blocked" {
+				if err := gate.Grant(st.C); err != nil {
+					gate.Drain()
+					wg.Wait()
+					return results, nil, "", err
+				}
+			}
+			continue
 		}
 		if (lbl == "cas") && rn != st.N+head0 {
 			drift = fmt.Sprintf("step %d: spec expects cas of entry %d, real client writes entry %d (offset %d)", si+1, st.N, rn, head0)
-			break
 		}
 		if err := gate.Grant(st.C); err != nil {
 			gate.Drain()
@@ -316,8 +339,17 @@ func (r *Runner) Execute(sc *lakeh.JScenario, sched []lakeh.GateStep, want *lake
 		if drift == "" && lbl == "cas" && tr.R != st.R {
 			drift = fmt.Sprintf("step %d: spec predicts cas %s, real %s", si+1, st.R, tr.R)
 		}
-		if drift != "" {
-			break
+	}
+	if drift != "" {
+		// finish what the schedule left over, one client at a time in client order
+		for steps := 0; steps < 5000; steps++ {
+			bl := gate.Blocked()
+			if len(bl) == 0 {
+				break
+			}
+			if err := gate.Grant(bl[0]); err != nil {
+				break
+			}
 		}
 	}
 	if drift == "" {
